@@ -15,18 +15,18 @@ import (
 
 // Ev is one I/O event of a (de)serializer, in source order.
 type Ev struct {
-	Kind    string // "write", "read", "write-call" (nested serializer), "unknown"
-	Width   int    // bytes; -1 = variable length
-	Field   string // source (write) or destination (read) expression
-	Order   string // byte order expression for binary.Read/Write ("" for raw byte copies)
-	Loop    int    // loop nesting depth
+	Kind     string // "write", "read", "write-call" (nested serializer), "unknown"
+	Width    int    // bytes; -1 = variable length
+	Field    string // source (write) or destination (read) expression
+	Order    string // byte order expression for binary.Read/Write ("" for raw byte copies)
+	Loop     int    // loop nesting depth
 	LoopInit string // "i := 0" for a three-clause loop
 	ConstVal string // value of the written expression when it is a compile-time constant
-	LoopX   string // innermost loop's range expression / condition
-	Cond    bool   // executed conditionally (inside an if/switch/func literal body)
-	BufSize string // for variable-length reads: how the buffer was sized
-	Callee  string
-	Pos     token.Pos
+	LoopX    string // innermost loop's range expression / condition
+	Cond     bool   // executed conditionally (inside an if/switch/func literal body)
+	BufSize  string // for variable-length reads: how the buffer was sized
+	Callee   string
+	Pos      token.Pos
 }
 
 func (e Ev) String() string {
@@ -145,6 +145,13 @@ func Extract(pkg *packages.Package, fd *ast.FuncDecl) []Ev {
 	}
 	var out []Ev
 	var stack []ast.Node
+	// the value most recently encoded into a local fixed-size array by binary.<order>.PutUintN
+	// (`var b [2]byte; binary.BigEndian.PutUint16(b[:], v); buf.Write(b[:])`)
+	type staged struct {
+		val   ast.Expr
+		order string
+	}
+	stagedIn := map[types.Object]staged{}
 	ast.Inspect(fd.Body, func(n ast.Node) bool {
 		if n == nil {
 			stack = stack[:len(stack)-1]
@@ -162,6 +169,20 @@ func Extract(pkg *packages.Package, fd *ast.FuncDecl) []Ev {
 		}
 		full := fn.FullName()
 		ev := Ev{Callee: full, Pos: call.Pos()}
+		if strings.HasPrefix(full, "(encoding/binary.") && strings.Contains(full, ").PutUint") && len(call.Args) == 2 {
+			if sl, ok := call.Args[0].(*ast.SliceExpr); ok && sl.Low == nil && sl.High == nil {
+				if id, ok := sl.X.(*ast.Ident); ok {
+					if obj := info.Uses[id]; obj != nil {
+						order := ""
+						if se, ok := call.Fun.(*ast.SelectorExpr); ok {
+							order = exprStr(se.X)
+						}
+						stagedIn[obj] = staged{call.Args[1], order}
+					}
+				}
+			}
+			return true
+		}
 		switch {
 		case full == "encoding/binary.Write" || strings.HasSuffix(full, "/vaa.MustWrite"):
 			if len(call.Args) != 3 {
@@ -180,6 +201,14 @@ func Extract(pkg *packages.Package, fd *ast.FuncDecl) []Ev {
 				if s := SizeOf(info.TypeOf(sl.X)); s > 0 {
 					if _, isArr := info.TypeOf(sl.X).Underlying().(*types.Array); isArr {
 						ev.Width, ev.Field = s, exprStr(sl.X)
+						if id, ok := sl.X.(*ast.Ident); ok {
+							if st, ok := stagedIn[info.Uses[id]]; ok && SizeOf(info.TypeOf(st.val)) == s {
+								ev.Field, ev.Order = exprStr(resolve(st.val)), st.order
+								if tv, ok := info.Types[st.val]; ok && tv.Value != nil {
+									ev.ConstVal = tv.Value.ExactString()
+								}
+							}
+						}
 						break
 					}
 				}
